@@ -76,21 +76,21 @@ Proof.
 Qed.
 Print Assumptions C10_compile_wellformed_partial.
 
-(* the model reproduces finding A-23: a 253-byte string literal compiles into a program that is
-   well-formed except for read_str's window *)
-Theorem C10_A23_witness :
+(* finding A-23 (repaired in /repo): a 253-byte string literal compiles into a program that is
+   well-formed for a reader without window, and ill-formed under the former MAX_STR_LEN window *)
+Theorem C10_A23_legacy_window_refuted :
   exists B, compile (main_module [CStringLiteral (repeat 76%N 253)]) default_options = COk B /\
-            wellformed_gen false B /\ ~ wellformed B.
+            wellformed_gen false B /\ ~ wellformed_gen true B.
 Proof. exact a23_witness. Qed.
-Print Assumptions C10_A23_witness.
+Print Assumptions C10_A23_legacy_window_refuted.
 
-(* the model reproduces finding A-24: the CloseUpvalue emitted by scope_end has no trace entry *)
-Theorem C10_A24_witness :
+(* finding A-24 (repaired in /repo): the CloseUpvalue emitted by scope_end now has a trace entry *)
+Theorem C10_A24_repaired :
   exists B, compile (main_module [CSetVar [120%N] (CScalarInt 1); CClosure [] [CReadVar [120%N]]])
                     default_options = COk B /\
-            wellformed B /\ ~ trace_complete B.
-Proof. exact a24_witness. Qed.
-Print Assumptions C10_A24_witness.
+            wellformed B /\ trace_complete B.
+Proof. exact a24_repaired. Qed.
+Print Assumptions C10_A24_repaired.
 
 (* Strengthening: when the literals of the program fit their machine types ([program_in_range], an
    executable condition that holds for every module built from the Rust types and is checked on every
